@@ -68,6 +68,20 @@ Call(r) ==
   /\ chk' = [kind |-> "call", idle |-> rel[r.r].st = "idle"]
   /\ UNCHANGED <<ses, objd, pre, cfg>>
 
+\* tight-budget phase: one event announces the GetSessions calls of a whole group of relays (logged before any of them
+\* is released), one event collects those that came back with an error
+CallN(r) ==
+  /\ rel' = [x \in RelIds |-> IF x \in ToSet(r.rs)
+                               THEN [IdleR EXCEPT !.st = "calling", !.cu = r.cu, !.ve = r.ve, !.callseq = r.seq]
+                               ELSE rel[x]]
+  /\ chk' = [kind |-> "call", idle |-> \A x \in ToSet(r.rs) : rel[x].st = "idle"]
+  /\ UNCHANGED <<ses, objd, pre, cfg>>
+
+NoGotN(r) ==
+  /\ rel' = [x \in RelIds |-> IF x \in ToSet(r.rs) THEN [IdleR EXCEPT !.kind = "nogot"] ELSE rel[x]]
+  /\ chk' = [kind |-> "nogotN", calling |-> \A x \in ToSet(r.rs) : rel[x].st = "calling"]
+  /\ UNCHANGED <<ses, objd, pre, cfg>>
+
 NoGot(r) ==
   /\ rel' = [rel EXCEPT ![r.r] = [IdleR EXCEPT !.solo = rel[r.r].solo /\ r.seq = rel[r.r].callseq + 1,
                                                !.cu = rel[r.r].cu, !.ve = rel[r.r].ve, !.unw = rel[r.r].unw,
@@ -184,6 +198,8 @@ TNext ==
          [] r.ev = "call"    -> Call(r)
          [] r.ev = "got"     -> Got(r)
          [] r.ev = "nogot"   -> NoGot(r)
+         [] r.ev = "callN"   -> CallN(r)
+         [] r.ev = "nogotN"  -> NoGotN(r)
          [] r.ev = "end"     -> End(r)
          [] r.ev = "ret"     -> Ret(r)
          [] r.ev = "barrier" -> Barrier(r)
@@ -200,6 +216,7 @@ ObsBlockedRule == chk.kind = "barrier" => chk.solo.rule
 \* driver sanity (not about lava): the protocol of the log itself
 ObsProtocol    == /\ (chk.kind = "call" => chk.idle) /\ (chk.kind = "got" => chk.calling)
                   /\ (chk.kind = "end" => chk.held) /\ (chk.kind = "ret" => chk.ending)
+                  /\ (chk.kind = "nogotN" => chk.calling)
                   /\ (chk.kind = "barrier" => chk.parked)
 
 Post == LET d == TLCGet("stats").diameter IN PrintT(<<"HWM", d>>) /\ d = Len(Trace)
